@@ -20,7 +20,9 @@ Lemma resolve_tag_spec : forall o r raw,
     match o_dyn o r (strip (inner (strip raw))) with
     | DScalar true s => resolve_tag o r raw = Some (if is_empty (strip s) then [] else [lower (strip s)])
     | DScalar false _ => resolve_tag o r raw = Some []
-    | DList items => resolve_tag o r raw = Some (map (fun it => lower (strip (snd it))) (filter (fun it => fst it) items))
+    | DList items => resolve_tag o r raw =
+                     Some (map (fun it => lower (strip (snd it)))
+                               (filter (fun it => (fst it && negb (is_empty (strip (snd it))))%bool) items))
     | DErr => resolve_tag o r raw = Some []
     | DCrash => resolve_tag o r raw = None
     end)).
@@ -35,68 +37,52 @@ Proof.
     destruct (is_empty (strip s)); reflexivity.
 Qed.
 
-(* tags resolved on a path that does not go through a list value are never empty *)
-Definition list_items_nonblank (o : oracle) : Prop :=
-  forall r e, match o_dyn o r e with
-              | DList items => forall it, In it items -> fst it = true -> strip (snd it) <> ""
-              | _ => True
-              end.
-
-Lemma resolve_tag_nonempty : forall o r raw l,
-  list_items_nonblank o -> resolve_tag o r raw = Some l -> ~ In "" l.
+(* no resolved tag is the empty string (since the fix "skip blank items of a list-valued tag": before it a list value
+   with a whitespace-only item put "" into the tag set) *)
+Lemma resolve_tag_nonempty : forall o r raw l, resolve_tag o r raw = Some l -> ~ In "" l.
 Proof.
-  intros o r raw l NB H. unfold resolve_tag in H.
+  intros o r raw l H. unfold resolve_tag in H.
   destruct (is_empty (strip raw)) eqn:E; [injection H as <-; tauto|].
   destruct (is_dynamic (strip raw)).
   - destruct (is_empty (strip (inner (strip raw)))) eqn:E2; [injection H as <-; tauto|].
-    specialize (NB r (strip (inner (strip raw)))).
     destruct (o_dyn o r (strip (inner (strip raw)))) as [[|] s|items| |]; try (injection H as <-; tauto); try discriminate.
     + destruct (is_empty (strip s)) eqn:E3; injection H as <-; [tauto|].
       intros [K|[]]. unfold low_strip in K. assert (is_empty (lower (strip s)) = true) by (rewrite K; reflexivity).
       rewrite is_empty_lower in H. congruence.
     + injection H as <-. intros K. apply in_map_iff in K. destruct K as (it & K1 & K2).
-      apply filter_In in K2. destruct K2 as [K2 K3]. unfold low_strip in K1.
+      apply filter_In in K2. destruct K2 as [_ K3]. apply andb_prop in K3. destruct K3 as [_ K3].
+      unfold low_strip in K1.
       assert (Hl : is_empty (lower (strip (snd it))) = true) by (rewrite K1; reflexivity).
-      rewrite is_empty_lower in Hl. apply is_empty_true in Hl. exact (NB it K2 K3 Hl).
+      rewrite is_empty_lower in Hl. rewrite Hl in K3. discriminate.
   - injection H as <-. intros [K|[]].
     assert (Hl : is_empty (lower (strip raw)) = true) by (rewrite K; reflexivity). rewrite is_empty_lower in Hl. congruence.
 Qed.
 
-Lemma resolve_tags_nonempty : forall o r raws l,
-  list_items_nonblank o -> resolve_tags o r raws = Some l -> ~ In "" l.
+Lemma resolve_tags_nonempty : forall o r raws l, resolve_tags o r raws = Some l -> ~ In "" l.
 Proof.
-  intros o r raws. induction raws as [|x rest IH]; intros l NB H; cbn in H.
+  intros o r raws. induction raws as [|x rest IH]; intros l H; cbn in H.
   - injection H as <-. tauto.
   - destruct (resolve_tag o r x) as [a|] eqn:A; [|discriminate].
     destruct (resolve_tags o r rest) as [b|] eqn:B; [|discriminate]. injection H as <-.
     intros K. apply in_app_or in K. destruct K as [K|K].
-    + exact (resolve_tag_nonempty o r x a NB A K).
-    + exact (IH b NB eq_refl K).
+    + exact (resolve_tag_nonempty o r x a A K).
+    + exact (IH b eq_refl K).
 Qed.
 
-Definition tags_nonempty_statement : Prop :=
-  forall o m rules res, engine_match m rules o = Res res -> ~ In "" (tags res).
+Lemma tags_nonempty : forall o m rules res, engine_match m rules o = Res res -> ~ In "" (tags res).
+Proof.
+  intros o m rules res H K. apply (tags_union o m rules res "" H) in K. destruct K as (r & _ & _ & K).
+  unfold rtags in K. destruct (resolve_tags o r (r_tags r)) as [l|] eqn:E; [|exact K].
+  exact (resolve_tags_nonempty o r (r_tags r) l E K).
+Qed.
 
+(* the input that used to put "" into the tag set *)
 Definition blank_rule : rule :=
   {| r_id := 0; r_name := "Orders"; r_match := "true"; r_category := ""; r_subcategory := ""; r_merchant := "Orders";
      r_tags := ["{[r.kind for r in extra]}"]; r_priority := 50; r_fields := [] |}.
 Definition blank_oracle : oracle :=
   {| o_gv_crash := false; o_cond := fun _ => RTrue; o_dyn := fun _ _ => DList [(true, "Alpha"); (true, " "); (false, "")];
      o_field := fun _ _ => FErr |}.
-
-Lemma tags_nonempty_refuted : ~ tags_nonempty_statement.
-Proof.
-  intros H. specialize (H blank_oracle FirstMatch [blank_rule]). vm_compute in H.
-  eapply H; [reflexivity|]. right. left. reflexivity.
-Qed.
-
-Lemma tags_nonempty_partial : forall o m rules res,
-  list_items_nonblank o -> engine_match m rules o = Res res -> ~ In "" (tags res).
-Proof.
-  intros o m rules res NB H K. apply (tags_union o m rules res "" H) in K. destruct K as (r & _ & _ & K).
-  unfold rtags in K. destruct (resolve_tags o r (r_tags r)) as [l|] eqn:E; [|exact K].
-  exact (resolve_tags_nonempty o r (r_tags r) l NB E K).
-Qed.
 
 (* ---- permutation invariance of the tag set ---- *)
 Lemma tags_permutation_invariant : forall o m m' rules rules' res res' t,
